@@ -218,13 +218,15 @@ def create_text_object_decorator(
                 # `vi_waiting_for_text_object_mode` filter state.)
                 operator_func = vi_state.operator_func
 
-                if text_obj is not None and operator_func is not None:
-                    # Call the operator function with the text object.
-                    operator_func(event, text_obj)
-
-                # Clear operator.
-                event.app.vi_state.operator_func = None
-                event.app.vi_state.operator_arg = None
+                try:
+                    if text_obj is not None and operator_func is not None:
+                        # Call the operator function with the text object.
+                        operator_func(event, text_obj)
+                finally:
+                    # Clear operator. (Also when the operator raised
+                    # `EditReadOnlyBuffer`, which the key processor swallows.)
+                    event.app.vi_state.operator_func = None
+                    event.app.vi_state.operator_arg = None
 
             # Register a move operation. (Doesn't need an operator.)
             if not no_move_handler:
@@ -462,6 +464,20 @@ def load_vi_bindings() -> KeyBindingsBase:
 
         if bool(buffer.selection_state):
             buffer.exit_selection()
+
+    # Escape typed where a command expects a character argument (`f<Esc>`,
+    # `cf<Esc>`, `r<Esc>`, `"<Esc>`, ...) cancels the command instead of being
+    # taken as that character. (A binding without `Keys.Any` wins over the
+    # `Keys.Any` one.)
+    for _prefix in ("f", "F", "t", "T", "r", '"', "q", "@"):
+        handle(
+            _prefix,
+            "escape",
+            filter=vi_navigation_mode
+            | vi_selection_mode
+            | vi_waiting_for_text_object_mode,
+            eager=True,
+        )(_back_to_navigation)
 
     @handle("k", filter=vi_selection_mode)
     def _up_in_selection(event: E) -> None:
